@@ -61,6 +61,8 @@ def _validate(out, prop, trace, tag):
         if "hist" not in ev and "calls" not in ev:
             calls = []
             for e in reversed(events[1:v["i"] - 1]):
+                if e.get("event") == "prelude":
+                    case["prelude"] = True
                 if e.get("event") == "reset":
                     break
                 if e.get("event") == "call":
